@@ -55,7 +55,7 @@ func scnDraw(rt *rapid.T, scenario string) scnCfg {
 
 // scnWorld builds the world of a scenario (no draws: everything comes from cfg).
 func scnWorld(rec *evid.Rec, cfg scnCfg, monitors mon.Set) *World {
-	w := &World{rec: rec, cfg: WorldCfg{Monitors: monitors, Property: "C11"}, H: mon.NewHistory(), RSSeen: map[string]bool{}, RolesSynced: map[string]bool{}, Facts: map[string]int{}, lastSyncAt: map[string]time.Time{}, Det: true}
+	w := &World{rec: rec, cfg: WorldCfg{Monitors: monitors, Property: "C11"}, H: mon.NewHistory(), RSSeen: map[string]bool{}, RolesSynced: map[string]bool{}, Facts: map[string]int{}, lastSyncAt: map[string]time.Time{}, Det: true, RetryFaulted: true}
 	w.C = sim.New(sim.Options{AffinityMode: cfg.Affinity})
 	for i := 0; i < cfg.Nodes; i++ {
 		w.C.AddNode(fmt.Sprintf("n%d", i+1), map[string]string{"zone": gen.LabelVals[i%3], "tier": "a"}, nil)
